@@ -34,7 +34,7 @@ class NotExcBase(BaseException):
 
 
 CLS = {"Base": Base, "SubA": SubA, "SubB": SubB, "Other": Other}
-NOTEXC = [int, NotExcBase, KeyboardInterrupt, object]
+NOTEXC = [int, NotExcBase, KeyboardInterrupt, object, Base("an instance, not a class"), "Base", 42]
 SPELL = [tuple, list, set]
 DELAYS = [0, 0.25, 3]
 METHODS = ["get", "set", "delete", "get_many", "incr"]
@@ -132,6 +132,8 @@ def execute(RetryingClient, attempts, rf, dnr, outcomes, variant, form=None):
     vclock.sleep_log = _L()
     args = (object(), object())
     kwargs = {"noreply": object()}
+    if variant % 2 and form is None:
+        args, kwargs = (), {"key": object(), "value": object(), "noreply": object()}      # everything by keyword
     inner.expect_args = (args, kwargs)
     if form is not None:
         inner.loose_kwargs = True
@@ -164,6 +166,100 @@ def execute(RetryingClient, attempts, rf, dnr, outcomes, variant, form=None):
     finally:
         vclock.sleep_log = None
     return {"h": hdr, "ev": log, "variant": variant}
+
+
+def special_scenarios(RetryingClient):
+    """(a) the wrapped method is looked up at call time: after the wrapped client's method has been replaced, the new one is
+    invoked; (b) the retry budget belongs to the call: a call made from inside an attempt of another call (re-entrancy on the
+    same RetryingClient) has its own."""
+    out = []
+    for attempts in (2, 3):
+        # (a)
+        log = []
+        inner = Inner(["ok", "Base", "ok"], log)
+        rc = RetryingClient(inner, attempts=attempts, retry_delay=0.25)
+        hdr = {"attempts": attempts, "rf": [], "dnr": [], "delay": "delay"}
+
+        class _L(list):
+            def append(self2, x, log=log):
+                log.append({"e": "sleep", "o": "none", "id": 0, "d": "delay" if x == 0.25 else f"other:{x!r}", "m": ""})
+        vclock.sleep_log = _L()
+        try:
+            a1 = (object(),)
+            inner.expect_args = (a1, {})
+            rc.get(*a1)                       # first call: through the original method
+            del log[:]
+            log.append({"e": "ctor", "o": "ok", "id": 0, "d": "delay", "m": ""})
+            old = inner.get
+            seen = []
+
+            def fresh(*a, **k):
+                seen.append(1)
+                return old(*a, **k)
+            inner.get = fresh                 # the application (or a test) replaces the method on the wrapped client
+            n0 = inner.n
+            try:
+                res = rc.get(*a1)
+                ident = [k for k, v in inner.objs.items() if v is res]
+                log.append({"e": "ret", "o": "ok", "id": ident[0] if ident else -1, "d": "delay", "m": "swap"})
+            except Exception as exc:   # noqa
+                ident = [k for k, v in inner.objs.items() if v is exc]
+                log.append({"e": "raise", "o": type(exc).__name__, "id": ident[0] if ident else -1, "d": "delay", "m": "swap"})
+            # every invocation of this second call must have gone through the replacement
+            ncalls = inner.n - n0
+            for e in log:
+                if e["e"] == "call":
+                    e["id"] -= n0
+                    if len(seen) != ncalls:
+                        e["d"] = "stale-method"
+                elif e["e"] in ("ret", "raise") and e["id"] > 0:
+                    e["id"] -= n0
+        finally:
+            vclock.sleep_log = None
+        out.append({"h": hdr, "ev": list(log), "variant": -1, "expected": None})
+        # (b)
+        log = []
+        nested_log = []
+        inner = Inner(["Base", "ok"], log)
+        rc = RetryingClient(inner, attempts=2, retry_delay=0.25)
+        state = {"done": False}
+        a1 = (object(),)
+        inner.expect_args = (a1, {})
+        orig_do = inner._do
+
+        def reentrant(name, args, kwargs):
+            if not state["done"]:
+                state["done"] = True
+                # a call on the same RetryingClient from inside this attempt: fails once, then succeeds
+                sub = Inner(["Other", "ok"], nested_log)
+                sub.expect_args = (a1, {})
+                saved = rc._client
+                rc._client = sub
+                try:
+                    rc.delete(*a1)
+                finally:
+                    rc._client = saved
+            return orig_do(name, args, kwargs)
+        inner._do = reentrant
+
+        class _L2(list):
+            def append(self2, x, log=log, nested_log=nested_log):
+                (nested_log if state["done"] and not any(e["e"] == "call" for e in log) else log).append(
+                    {"e": "sleep", "o": "none", "id": 0, "d": "delay" if x == 0.25 else f"other:{x!r}", "m": ""})
+        vclock.sleep_log = _L2()
+        log.append({"e": "ctor", "o": "ok", "id": 0, "d": "delay", "m": ""})
+        try:
+            try:
+                res = rc.get(*a1)
+                ident = [k for k, v in inner.objs.items() if v is res]
+                log.append({"e": "ret", "o": "ok", "id": ident[0] if ident else -1, "d": "delay", "m": "reentrant"})
+            except Exception as exc:   # noqa
+                ident = [k for k, v in inner.objs.items() if v is exc]
+                log.append({"e": "raise", "o": type(exc).__name__, "id": ident[0] if ident else -1, "d": "delay", "m": "reentrant"})
+        finally:
+            vclock.sleep_log = None
+        out.append({"h": {"attempts": 2, "rf": [], "dnr": [], "delay": "delay"}, "ev": list(log), "variant": -2, "expected": None})
+    return out
 
 
 def strip(ev):
@@ -236,6 +332,7 @@ CHECK_DEADLOCK FALSE
             extra.append(t)
     traces += extra
 
+    traces += special_scenarios(RetryingClient)
     tl = [{"h": t["h"], "ev": strip(t["ev"])} for t in traces]
     acc, rej, st, tr = tlc.validate_traces("RetryingTrace", tl)
     rep.set("traces_validated_against_impl", len(tl))
